@@ -1198,6 +1198,13 @@ class Ev:
             out_shape.append(y if x == 1 else x)          # an axis of length 0 broadcasts against 1 to length 0
         batch = max(a.batch if isinstance(a, ArrV) else 0, b.batch if isinstance(b, ArrV) else 0)
         out = ArrV(batch, out_shape)
+        # constant axes in front of the grid axes ((2, ntv) after a transpose): kept when the other operand has no constant axes of its own (a scalar, a vector
+        # over the grid) or is laid out the same way; mixing the two layouts is a different broadcast and is refused
+        lasts = [x.batch_last for x in (a, b) if isinstance(x, ArrV) and x.shape and x.batch]
+        if any(lasts):
+            if not all(lasts):
+                raise self.err("arithmetic between arrays with constant axes before and after the grid axes", n, mod)
+            out.batch_last = True
 
         def get(x, px, key):
             if not isinstance(x, ArrV):
@@ -4486,6 +4493,10 @@ def lib_opaque_order(tag):
             ca = axis - (0 if x.batch_last else x.batch)
             if not 0 <= ca < len(x.shape):
                 raise ev.err("numpy.sort along a grid axis of a small array is not modelled", n, mod)
+            if x.batch_last and x.batch:
+                # (k, grid) layout: which of the k entries comes first changes from grid point to grid point; whether what is done with the sorted entries is
+                # symmetric in them (and so unchanged) is not something the normal forms can express
+                raise ev.err("numpy.sort of grid-dependent entries along a constant axis in (k, grid) layout: pointwise reordering is not modelled", n, mod)
             out = ArrV(x.batch, x.shape, batch_last=x.batch_last)
             for key in itertools.product(*[range(d) for d in x.shape]):
                 lane = [x.get(key[:ca] + (j,) + key[ca + 1:]) for j in range(x.shape[ca])]
